@@ -23,7 +23,8 @@ var c03Templates = []c03Template{
 }
 
 // Everything in block style; mapping forms of every section; ports AND volumes together in both
-// orders; include/exclude elements as mappings and as scalars.
+// orders; include/exclude lists of the shape [expression typed any, mapping, expression typed
+// object, mapping, expression].
 const c03TmplMain = `name: Maximal template
 run-name: Run of ${{ github.workflow }} by ${{ github.actor }}
 on:
@@ -149,16 +150,19 @@ jobs:
         node:
           - 14
           - 16
+          - 18
         cfg:
           - name: one
             opts:
               - x
               - y
+              - w
           - name: two
             opts:
               - z
         dyn: ${{ fromJSON(needs.prep.outputs.list) }}
         include:
+          - ${{ fromJSON(needs.prep.outputs.inc) }}
           - os: ubuntu-latest
             node: 18
             extra:
@@ -166,10 +170,17 @@ jobs:
               list:
                 - p
                 - q
+          - ${{ fromJSON('{"os":"macos-latest"}') }}
+          - os: windows-latest
+            node: 20
           - ${{ fromJSON(needs.prep.outputs.inc) }}
         exclude:
+          - ${{ fromJSON(needs.prep.outputs.inc) }}
           - os: windows-latest
             node: 14
+          - ${{ fromJSON('{"os":"ubuntu-latest"}') }}
+          - os: ubuntu-latest
+            node: 16
           - ${{ fromJSON(needs.prep.outputs.inc) }}
     container:
       image: node:18
@@ -433,6 +444,7 @@ jobs:
         plain:
           - 1
           - ${{ github.run_id }}
+          - 3
         include: ${{ fromJSON(needs.gen.outputs.m) }}
         exclude: ${{ fromJSON(needs.gen.outputs.m) }}
     steps:
@@ -511,20 +523,20 @@ jobs:
     strategy:
       matrix:
         pairs:
-          - [1, 2]
-          - [3, 4]
+          - [1, 2, 3]
+          - [3, 4, 5]
         deep:
           - [[a], [b]]
         objs:
           - a:
               b: c
         exclude:
-          - pairs: [1, 2]
+          - pairs: [1, 2, 3]
             objs:
               a:
                 b: c
         include:
-          - pairs: [5, 6]
+          - pairs: [5, 6, 7]
             more: [[x]]
     steps:
       - run: echo
